@@ -47,19 +47,24 @@ MORE = {
     "C10": dict(
         text="Partial proof (Verus) for the operators under contract: if, cons, first, rest, listp, raise, eq, not, any, all, strlen, concat, "
              "sha256, sha256tree (per pair and per byte over the fully expanded tree, whether or not sub-trees are shared), div, divmod, mod, "
-             "gr (>), multiply, secp256k1/r1 verify charge exactly their documented constants / formulas over argument sizes, accumulator "
-             "magnitudes and result size, in both cost models; unknown operators charge the opcode rule (C09); uint_atom decodes exactly the "
-             "documented operand domain; the path lookup charges 44 + 4 per leading zero byte + 4 per bit. NOT under contract: add, subtract, "
-             "the bit operators (logand/logior/logxor/lognot/ash/lsh), gr_bytes, substr, modpow, point_add, pubkey_for_exp, coinid, the BLS and "
-             "keccak operators.",
+             "modpow, gr (>), gr_bytes (>s), multiply, logand/logior/logxor (new model: per byte of max(argument, accumulator magnitude)), lognot, "
+             "ash, lsh, substr, coinid, secp256k1/r1 verify charge exactly their documented constants / formulas over argument sizes, accumulator "
+             "magnitudes and result size, in both cost models; unknown operators charge the opcode rule (C09); uint_atom / i32_atom decode exactly "
+             "the documented operand domains; the path lookup charges 44 + 4 per leading zero byte + 4 per bit. NOT under contract: add, subtract "
+             "(their fast path is an immediately-invoked closure that captures mutable locals, outside Verus's fragment), point_add, "
+             "pubkey_for_exp, the BLS and keccak operators; for these only the concrete search (vreplay search C10: + and - are in its grid) applies.",
         note=TB,
         tech="contract-based deductive verification (Verus): exact-cost and success-condition postconditions per operator",
-        ref="4/C10, 11.1, 11.7, 11.9, 11.11"),
+        ref="4/C10, 11.1, 11.7, 11.9, 11.11, 11.13-11.15"),
     "C11": dict(
         text="Partial proof (Verus): (1) for the operators under contract (see C10) the value clause of each contract does not mention the "
              "cost-model flag, so a call that succeeds under both models returns the same tree; (2) ChiaDialect::op equals the operator table, "
              "and a lemma on the table shows NEW_COST_MODEL never changes which operator an opcode selects (it can only lift the DISABLE_OP "
-             "ban on modpow). Operators not under contract are outside the claim.",
+             "ban on modpow); (3) binop_reduction, the mechanism the property names (single accumulator under the new model, positive / negative "
+             "split accumulators before), is verified in three specialised copies (logand, logior, logxor): in both models the result is the "
+             "left fold of the operator over the operands, proved from associativity, commutativity and the identity of the bit operation (assumed "
+             "library facts), whichever accumulator an operand goes to. Operators not under contract (add, subtract: the other named mechanism; "
+             "BLS, keccak) are outside the proof; + and - are covered by the concrete search only.",
         note=TB,
         tech="contract-based deductive verification (Verus): value postconditions independent of the flags argument; routing lemma over the dispatch table",
         ref="4/C11, 11.1"),
